@@ -91,6 +91,8 @@ def fingerprint_inputs(parts_arg):
             na = M.note_array_from_part_list(parts)
             fp["score_level"] = sorted((Fraction(int(r["onset_div"]), int(r["divs_pq"])), Fraction(int(r["duration_div"]), int(r["divs_pq"])),
                                         int(r["pitch"])) for r in na)
+            # the same table in its own (least-common-multiple) divisions, as the merged part states them
+            fp["score_level_divs"] = sorted((int(r["onset_div"]), int(r["duration_div"]), int(r["pitch"])) for r in na)
         except Exception:
             fp["score_level"] = None
     return fp
@@ -178,6 +180,13 @@ def check_merge(ctx, fp, parts_arg, reassign, result):
         ctx.check()
         if got != fp["score_level"]:
             ctx.violation("sounding-notes-differ-from-score-level-note-array", f"{len(got)} vs {len(fp['score_level'])} notes", w)
+        elif fp.get("score_level_divs") is not None:
+            got_d = sorted((int(o), int(d), int(p)) for o, d, p in sounding(result))
+            ctx.check()
+            if got_d != fp["score_level_divs"]:
+                k = next((i for i, (a, b) in enumerate(zip(got_d, fp["score_level_divs"])) if a != b), 0)
+                ctx.violation("merged-part-and-score-level-note-array-in-different-divisions",
+                              f"merged part (lcm {lcm}) has {got_d[k]}, the score-level note array {fp['score_level_divs'][k]} (onset, duration in divisions, pitch)", w)
 
 
 def install(ctx):
